@@ -14,17 +14,17 @@ import (
 
 // Env is the environment in which a contract expression is translated.
 type Env struct {
-	fv      *FuncVC
-	st      *State // current state (heap reads)
-	old     *State // state for old(...)
-	loopPre *State
+	fv       *FuncVC
+	st       *State // current state (heap reads)
+	old      *State // state for old(...)
+	loopPre  *State
 	loopHead *State
-	vars    map[string]Term
-	bound   []map[string]Term
-	callee  bool // contract of a callee evaluated at a call site: caller locals are not visible
-	cells   bool // identifiers prefer the current value of local cells (loop invariants, asserts)
-	depth   int
-	pos     string
+	vars     map[string]Term
+	bound    []map[string]Term
+	callee   bool // contract of a callee evaluated at a call site: caller locals are not visible
+	cells    bool // identifiers prefer the current value of local cells (loop invariants, asserts)
+	depth    int
+	pos      string
 }
 
 func (fv *FuncVC) newEnv(st, old *State) *Env {
